@@ -16,21 +16,33 @@ typedef struct { char *b; size_t n, cap; } sb_t;
 static void sb_put(sb_t *s, const char *p, size_t n) { if (s->n + n + 1 > s->cap) { s->cap = (s->n + n + 1) * 2; s->b = realloc(s->b, s->cap); } memcpy(s->b + s->n, p, n); s->n += n; s->b[s->n] = 0; }
 static void sb_ch(sb_t *s, char c) { sb_put(s, &c, 1); }
 
-#define NVAR 8
-static struct { char k[16]; char v[128]; int set; } vars[NVAR];
+#define NVAR 24
+static struct { char k[64]; char v[2048]; int set; int unc; } vars[NVAR];      /* unc: the model no longer knows this key's value (a put whose outcome the statement leaves open) */
+static char put_keys[8][64]; static int nput_keys;      /* keys put during the value being expanded */      /* (values of up to two kilobytes are modelled; longer ones make that key uncertain) */
 static int dont_care;                      /* the input uses a construct whose value the statement leaves open */
 static int put_seen, store_uncertain, tmpdir_odd, len_unknown, quoted_word_seen;
 static int tilde_nohome_seen, tilde_nohome_drop;      /* a tilde with no home directory: kept (0) or dropped (1), both are accepted */
 static int rand_choice, random_calls, random_words, store_unknown;      /* a %put in an expansion that was cut at the limit may or may not have happened */
-static const char *ref_getvar(const char *k) { for (int i = 0; i < NVAR; i++) if (vars[i].set && !strcmp(vars[i].k, k)) return vars[i].v; return NULL; }
+static const char *ref_getvar(const char *k) { for (int i = 0; i < NVAR; i++) if (vars[i].set && !strcmp(vars[i].k, k)) { if (vars[i].unc) dont_care = 1; return vars[i].v; } return NULL; }
+static void ref_mark_uncertain(const char *k)
+{
+    for (int i = 0; i < NVAR; i++) if (vars[i].set && !strcmp(vars[i].k, k)) { vars[i].unc = 1; return; }
+    for (int i = 0; i < NVAR; i++) if (!vars[i].set) { vars[i].set = 1; vars[i].unc = 1; snprintf(vars[i].k, sizeof(vars[i].k), "%s", k); vars[i].v[0] = 0; return; }
+    store_unknown = 1;
+}
 static void ref_putvar(const char *k, const char *v)
 {
     put_seen = 1;
-    for (int i = 0; i < NVAR; i++) if (vars[i].set && !strcmp(vars[i].k, k)) { snprintf(vars[i].v, sizeof(vars[i].v), "%s", v); return; }
+    if (strlen(k) >= sizeof(vars[0].k)) { dont_care = 1; store_unknown = 1; return; }
+    if (nput_keys < 8) snprintf(put_keys[nput_keys++], 64, "%s", k); else store_unknown = 1;
+    if (dont_care) { ref_mark_uncertain(k); return; }          /* a value that itself rests on something the model does not know (an uncertain key read back, an open construct in front) */
+    if (strlen(v) >= sizeof(vars[0].v)) { dont_care = 1; ref_mark_uncertain(k); return; }
+    for (int i = 0; i < NVAR; i++) if (vars[i].set && !strcmp(vars[i].k, k)) { snprintf(vars[i].v, sizeof(vars[i].v), "%s", v); vars[i].unc = 0; return; }
     for (int i = 0; i < NVAR; i++) if (!vars[i].set) { vars[i].set = 1; snprintf(vars[i].k, sizeof(vars[i].k), "%s", k); snprintf(vars[i].v, sizeof(vars[i].v), "%s", v); return; }
-    dont_care = 1;
+    dont_care = 1; store_unknown = 1;          /* more names than the model holds: from here on it cannot say what the store contains */
 }
-static int words(const char *s, char w[4][128])
+#define WORDMAX 2048
+static int words(const char *s, char w[4][WORDMAX])
 {
     int n = 0;
     while (*s) {
@@ -42,14 +54,14 @@ static int words(const char *s, char w[4][128])
             /* a quoted word, as the library's word splitter sees it: everything up to the matching quote, quotes dropped.
                Backslashes, the other kind of quote inside, a missing closing quote or text glued to it: not modelled */
             char q = *s++;
-            while (*s && *s != q && k < 127) { if (*s == '\\' || *s == '"' || *s == '\'') { dont_care = 1; len_unknown = 1; } w[n][k++] = *s++; }
+            while (*s && *s != q && k < WORDMAX - 1) { if (*s == '\\' || *s == '"' || *s == '\'') { dont_care = 1; len_unknown = 1; } w[n][k++] = *s++; }
             if (*s != q || (s[1] && !isspace((unsigned char)s[1]))) { dont_care = 1; len_unknown = 1; return 0; }
             s++;
             w[n++][k] = 0;
             quoted_word_seen = 1;
             continue;
         }
-        while (*s && !isspace((unsigned char)*s) && k < 127) { if (*s == '"' || *s == '\'') { dont_care = 1; len_unknown = 1; } w[n][k++] = *s++; }
+        while (*s && !isspace((unsigned char)*s) && k < WORDMAX - 1) { if (*s == '"' || *s == '\'') { dont_care = 1; len_unknown = 1; } w[n][k++] = *s++; }
         if (*s && !isspace((unsigned char)*s)) { dont_care = 1; len_unknown = 1; while (*s && !isspace((unsigned char)*s)) s++; }    /* words beyond the model's 127 characters: not modelled */
         w[n++][k] = 0;
     }
@@ -59,11 +71,16 @@ static void ref_expand(const char *s, sb_t *o, int depth);
 static void ref_builtin(const char *name, const char *rawargs, sb_t *o, int depth)
 {
     sb_t a = { 0 };
-    char w[4][128];
+    static char w[4][WORDMAX];
     int n;
     sb_put(&a, "", 0);
     ref_expand(rawargs, &a, depth + 1);          /* arguments are expanded first, innermost first */
-    if (!strcasecmp(name, "put")) { n = words(a.b, w); if (n == 2) ref_putvar(w[0], w[1]); else if (!dont_care) { /* wrong arity: error, nothing */ } }
+    if (!strcasecmp(name, "put")) {
+        n = words(a.b, w);
+        if (n == 2) ref_putvar(w[0], w[1]);
+        else if (dont_care) { put_seen = 1; if (n >= 1 && strlen(w[0]) < 60) { if (nput_keys < 8) snprintf(put_keys[nput_keys++], 64, "%s", w[0]); ref_mark_uncertain(w[0]); } else store_unknown = 1; }   /* the words rest on something the model does not know: the put may have happened, with a key it can only guess */
+        /* else: wrong arity: error, nothing */
+    }
     else if (!strcasecmp(name, "get")) {
         n = words(a.b, w);
         if (n == 1 || n == 2) { const char *v = ref_getvar(w[0]); if (v) sb_put(o, v, strlen(v)); else if (n == 2) sb_put(o, w[1], strlen(w[1])); }
@@ -110,7 +127,7 @@ static void ref_dirscan(const char *args, sb_t *o)
 {
     /* every regular file of the directory, each name followed by a blank, in the order the directory lists them (the
        simulated directory lists an unchanged directory in the same order every time, as a real one does) */
-    char w[4][128];
+    static char w[4][WORDMAX];
     sb_t l = { 0 };
     DIR *d;
     struct dirent *de;
@@ -249,12 +266,17 @@ static void one_pass(const plan_t *p, int pass)
             char *orig = strdup(b);
             static unsigned char vars_before[sizeof(vars)];
             memcpy(vars_before, vars, sizeof(vars));
-            dont_care = 0; put_seen = 0; len_unknown = 0; rand_choice = 0; random_calls = 0; random_words = 0; store_unknown = 0; tilde_nohome_seen = 0; tilde_nohome_drop = 0;
+            dont_care = 0; put_seen = 0; nput_keys = 0; len_unknown = 0; rand_choice = 0; random_calls = 0; random_words = 0; store_unknown = 0; tilde_nohome_seen = 0; tilde_nohome_drop = 0;
             sb_put(&want, "", 0);
             { char *in = strdup(b); ref_expand(in, &want, 0); free(in); }
             if (store_uncertain && strcasestr(b, "%get")) dont_care = 1;
             if (store_unknown) store_uncertain = 1;
-            if ((want.n >= CONFIG_BUFF - 1 || len_unknown) && put_seen) { store_uncertain = 1; probe_hit("put_in_an_expansion_cut_at_the_limit"); }
+            if ((want.n >= CONFIG_BUFF - 1 || len_unknown) && put_seen) {
+                /* a put in a value that was cut, or whose other parts the model does not follow: whether and with what it happened is open
+                   -- for the keys it names; the rest of the store is as known as before */
+                for (int q = 0; q < nput_keys; q++) ref_mark_uncertain(put_keys[q]);
+                probe_hit("put_in_an_expansion_cut_at_the_limit");
+            }
             paint_stack(pass ? 0xFF : 0x81, 90000);          /* the callee's frame alone is a 20 kB buffer, nested calls add theirs */
             ret = (char *)spifconf_shell_expand((spif_charptr_t)b);
             if (ret && !dont_care && tilde_nohome_seen && want.n < CONFIG_BUFF - 1 && (strlen(b) != want.n || memcmp(b, want.b, want.n))) {
@@ -331,6 +353,20 @@ static void one_pass(const plan_t *p, int pass)
             { int lv = 0, mx = 0; for (size_t q = 0; q < o->slen; q++) { if (o->s[q] == '(') { if (++lv > mx) mx = lv; } else if (o->s[q] == ')') lv--; } if (mx >= 3) probe_hit("nested_call_depth3"); }
         }
     }
+    /* what the store holds at the end of the pass, asked key by key: the last puts of a pass are judged too, not only those a later
+       expansion of the plan happens to read back */
+    if (!store_uncertain) {
+        for (int i = 0; i < NVAR; i++) {
+            char *b;
+            if (!vars[i].set || vars[i].unc || !vars[i].k[0] || strpbrk(vars[i].k, " \t()'\"\\$%~`")) continue;
+            b = sim_malloc(CONFIG_BUFF);
+            snprintf(b, CONFIG_BUFF, "%%get(%s)", vars[i].k);
+            if (!spifconf_shell_expand((spif_charptr_t)b) || strcmp(b, vars[i].v))
+                sim_fail("MISMATCH(expand-value)", "at the end of the pass %%get(%s) gives \"%.60s\", the last value put was \"%.60s\"", vars[i].k, b, vars[i].v);
+            sim_free(b);
+            probe_hit("store_read_back_at_the_end");
+        }
+    }
     R.cur_op = NULL;
     spifconf_free_subsystem();
 }
@@ -363,9 +399,9 @@ static const char *gen_key(rng_t *r)
 static void gen_piece(rng_t *r, int depth, int inside_args)
 {
     int c = (int)rng_below(r, 100);
-    static const char *plain[] = { "abc", "x", "some text", "a=b", "path/to/file", "1.5", "end", "-", "_", ":" };
+    static const char *plain[] = { "abc", "x", "some text", "a=b", "path/to/file", "1.5", "end", "-", "_", ":", "caf\xc3\xa9", "\xff\x80z", "80% of it", "(x)" };
     static const char *envs[] = { "V1", "HOME", "EMPTY", "NOSUCH", "LONG_name_9" };
-    if (c < 30) ga("%s", plain[rng_below(r, 10)]);
+    if (c < 30) ga("%s", plain[rng_below(r, rng_chance(r, 1, 6) ? 14 : 10)]);
     else if (c < 36) ga(" ");
     else if (c < 46) { int f = (int)rng_below(r, 3); const char *e = envs[rng_below(r, 5)]; if (f == 0) ga("$%s", e); else if (f == 1) ga("${%s}", e); else ga("$(%s)", e); }
     else if (c < 52) ga("\\%c", "nrtbfave\\$~%'\"x "[rng_below(r, 17)]);
@@ -376,13 +412,15 @@ static void gen_piece(rng_t *r, int depth, int inside_args)
     else if (c < 72) {
         if (rng_chance(r, 1, 5)) { static const char *qv[] = { "''", "\"\"", "'two words'", "\"d q\"", "'$V1'", "'~'", "' '" }; ga("%%put(k%u %s)", rng_below(r, 4), qv[rng_below(r, 7)]); }     /* quoted values, the empty one included */
         else if (rng_chance(r, 1, 10)) { static const char *odd[] = { "%%put()", "%%put(k1)", "%%put(k1 $EMPTY)", "%%put($NOSUCH v)" }; ga(odd[rng_below(r, 4)]); }      /* too few words once expanded */
-        else if (rng_chance(r, 1, 12)) { static const char *del[] = { "%%put('a\" b' one)", "%%put('m\" b' one)", "%%put(\"a\\\" b)", "%%put(\"m\\\" b)", "%%get('a\" b' none)", "%%get('m\" b' none)" }; ga(del[rng_below(r, 6)]); }      /* names with a quote in them, and the spelling that deletes one (two words to the counter, one to the splitter): value not modelled, safety and garbage-independence are */
+        else if (rng_chance(r, 1, 12)) { static const char *del[] = { "%%put('a\" b' one)", "%%put('m\" b' one)", "%%put(\"a\\\\\" b)", "%%put(\"m\\\\\" b)", "%%get('a\" b' none)", "%%get('m\" b' none)",
+                                                                        "%%put('m\" b' one)%%put(\"m\\\\\" b)", "%%put('a\" b' one)%%put(\"a\\\\\" b)", "%%put('m\" b' one) %%put(\"m\\\\\" b) %%get(k0 d)" }; ga(del[rng_below(r, 9)]); }      /* names with a quote in them, and the spelling that deletes one (two words to the counter, one to the splitter): value not modelled, safety and garbage-independence are */
         else if (rng_chance(r, 1, 8)) {
             /* a quoted word first, a plain one after it, and something behind that (white space in front of the parenthesis) */
             static const char *tail[] = { " ", "\t", "  ", "" };
             int q = rng_chance(r, 1, 2) ? '"' : '\'';
             ga("%%put(%c%s%c v%u%s)", q, gen_key(r), q, rng_below(r, 10), tail[rng_below(r, 4)]);
         }
+        else if (rng_chance(r, 1, 12)) { static const int vl[] = { 127, 128, 254, 255, 256, 257, 1000, 2000 }; int n = vl[rng_below(r, 8)]; ga("%%put(%s ", gen_key(r)); for (int q = 0; q < n; q++) ga("%c", 'a' + q % 26); ga(")"); }      /* a value of a few hundred characters */
         else ga("%%put(%s %s%u)", gen_key(r), rng_chance(r, 1, 4) ? "$V1" : "v", rng_below(r, 10));
     }
     else if (c < 80) {
@@ -391,7 +429,7 @@ static void gen_piece(rng_t *r, int depth, int inside_args)
         else if (rng_chance(r, 1, 10)) ga("%%get(%s d%u%s)", gen_key(r), rng_below(r, 10), rng_chance(r, 1, 2) ? " " : "\t");
         else if (rng_chance(r, 1, 3)) ga("%%get(%s d%u)", gen_key(r), rng_below(r, 10)); else if (rng_chance(r, 1, 6)) ga("%%get(%s 'a default')", gen_key(r)); else ga("%%get(%s)", gen_key(r));
     }
-    else if (c < 83) ga(rng_chance(r, 1, 2) ? "%%version()" : "%%appname()");
+    else if (c < 83) { static const char *va[] = { "%%version()", "%%appname()", "%%VERSION()", "%%AppName()", "%%GET(k1)", "%%Put(k2 up)" }; ga(va[rng_below(r, rng_chance(r, 1, 5) ? 6 : 2)]); }      /* (names are matched without regard to case) */
     else if (c < 86) {
         static const char *rw[] = { "abc", "x", "a=b" }; const char *w = rw[rng_below(r, 3)];
         if (rng_chance(r, 1, 2)) ga("%%random(%s %s %s)", w, w, w);
@@ -427,7 +465,7 @@ static void gen_c10(plan_t *p, rng_t *r)
     plan_knob(p, "alloc.reuse", rng_range(r, 0, 2));
     if (rng_chance(r, 1, 10)) { o = plan_op(p, 0, "env", 1, (long)rng_chance(r, 1, 2)); op_str(o, "HOME", 4); op_str2(o, "", 0); }
     if (rng_chance(r, 1, 3)) plan_op(p, 0, "builtin", 1, (long)rng_range(r, 1, 5));
-    if (rng_chance(r, 1, 10)) { static const int el[] = { 120, 127, 128, 300, 4096, 20470, 20478, 20479, 20480, 20481, 30000, 65000 }; plan_knob(p, rng_chance(r, 1, 2) ? "env.v1len" : "env.homelen", el[rng_below(r, 12)]); }
+    if (rng_chance(r, 1, 10)) { static const int el[] = { 120, 127, 128, 300, 4096, 20470, 20478, 20479, 20480, 20481, 30000, 65000, 250, 255, 256, 257, 1000, 2000 }; plan_knob(p, rng_chance(r, 1, 2) ? "env.v1len" : "env.homelen", el[rng_below(r, 18)]); }
     if (rng_chance(r, 1, 12)) plan_knob(p, rng_chance(r, 1, 2) ? "fdopen.fail" : "fchmod.fail", rng_range(r, 1, 3));      /* a command's output cannot be read back / its temporary file cannot be given its mode */
     if (rng_chance(r, 1, 12)) { static const int tl[] = { 200, 230, 238, 239, 240, 241, 242, 243, 244, 245, 250, 256, 300 }; plan_knob(p, "tmpdir", rng_range(r, 1, 5)); plan_knob(p, "tmpdir.len", tl[rng_below(r, 13)]); }
     if (rng_chance(r, 1, 10)) {
